@@ -745,7 +745,7 @@ def rule_REP(ctx):
             if aug:
                 return 'group'
             return 'plain'
-        if isinstance(e, ast.ListComp) and len(e.generators) == 2:
+        if isinstance(e, (ast.ListComp, ast.GeneratorExp)) and len(e.generators) == 2:
             g0, g1 = e.generators
             it0, it1 = ast.unparse(g0.iter), ast.unparse(g1.iter)
             if it0 == grp and fac in it1:
